@@ -193,7 +193,10 @@ def schema_table_obligations(src, prop):
     mod = importlib.util.module_from_spec(sp)
     sp.loader.exec_module(mod)
     diffs = mod.compare(dumped)
-    obs = []
+    ediffs = mod.compare_enums(dumped.get('__enums__', {}))
+    dumped = {k: v for k, v in dumped.items() if not k.startswith('__')}
+    obs = [{'key': 'schema[enumerations]:representation-codes-and-record-types-as-in-RP66', 'function': 'schema table (evaluated)',
+            'status': 'refuted' if ediffs else 'discharged', 'solver': 'exact evaluation', 'seconds': 0.0, 'model': ediffs or None}]
     for st in sorted(set(mod.SCHEMA) | set(dumped)):
         mine = [d for d in diffs if d.startswith(st + ':') or d.startswith(st + '.')]
         obs.append({'key': f'schema[{st}]:equals-the-RP66-object-type-table', 'function': 'schema table (evaluated)', 'status': 'refuted' if mine else 'discharged',
